@@ -62,10 +62,95 @@ def rand_case(rng, memos=MEMOS, maxN=40):
         c["clobber"] = 1            # a pure rule may still scribble on the array it was handed
     if rng.random() < 0.25:
         c["layout"] = rng.choice(["F", "rev", "str"])
+    decorate(rng, c)
     return c
 
 
+def decorate(rng, c):
+    """Variation every evolve case may carry: the shape of the callables, NumPy-scalar parameters, states of a
+    magnitude float64 cannot hold (int64 / uint64 automata), rules returning mixed Python / NumPy integer types."""
+    if rng.random() < 0.3:
+        c["callform"] = rng.choice(["lambda", "defaults", "partial", "star", "method"])
+    if rng.random() < 0.15:
+        c["npform"] = rng.choice(["np64", "np32"])      # signed: an unsigned radius makes -r wrap, the caller's problem
+    if c.get("scale", 1) == 1 and c["rule"].startswith(("hash:", "probe:")) and rng.random() < 0.12:
+        parts = c["rule"].split(":")
+        k = int(parts[1])
+        old = int(parts[4])
+        big = rng.choice([2 ** 53 + 1, 2 ** 62 + 3, -(2 ** 62) - 1, 2 ** 63 + 5])
+        c["dtype"] = "uint64" if big > 2 ** 63 else "int64"
+        parts[4] = str(big)
+        c["rule"] = ":".join(parts)
+
+        def shift(x):
+            return big + ((x - old) % k)
+        c["hist"] = [[[shift(x) for x in row] for row in g] if g and isinstance(g[0], list) else [shift(x) for x in g] for g in c["hist"]]
+        if rng.random() < 0.5:
+            c["mixret"] = 1
+    elif c.get("scale", 1) == 1 and c["rule"].startswith(("hash:", "probe:")) and rng.random() < 0.08:
+        # a uint64 automaton over a 63-bit alphabet, the rule returning NumPy scalars and Python ints alternately
+        parts = c["rule"].split(":")
+        parts[1] = str(rng.choice([2 ** 63 + 9, 2 ** 64 - 59]))          # states below and above 2^63 in one row
+        parts[4] = "0"
+        c["rule"] = ":".join(parts)
+        c["dtype"] = "uint64"
+        if rng.random() < 0.5:
+            c["mixret"] = 1
+        big = lambda: rng.getrandbits(63)                    # noqa: E731
+        c["hist"] = [[[big() for _ in row] for row in g] if g and isinstance(g[0], list) else [big() for _ in g] for g in c["hist"]]
+    return c
+
+
+def weak_cases(rng, n_pairs):
+    """Rings in which two different neighbourhoods / block windows share a weak digest (harness/weak.py)."""
+    from .. import weak
+    out = []
+    for _ in range(n_pairs):
+        # memoize=True: the key is the (2r+1)-cell neighbourhood. r = 17 -> 35 binary cells; cells 20 and 60 of an 80-ring
+        N, r = 80, 17
+        for kind in ("crc", "adler"):
+            st = [0] * N if kind == "adler" else [rng.randrange(2) for _ in range(N)]
+            w1 = list(range(20 - r, 20 + r + 1))
+            w2 = list(range(60 - r, 60 + r + 1))
+            a = [st[i] for i in w1]
+            if kind == "crc":
+                b = weak.crc_partner(a, list(range(len(a))), "int32")
+                if b is None:
+                    continue
+            else:
+                pr = weak.adler_partner(a, list(range(3, len(a) - 3)))
+                if pr is None:
+                    continue
+                a, b = pr
+            for i, v in zip(w1, a):
+                st[i] = v
+            for i, v in zip(w2, b):
+                st[i] = v
+            out.append(dict(kind="ev1", hist=[st], dtype="int32", scale=1, r=r, rule="hash:5:3:1:0", T=2, memo="True"))
+        # memoize='recursive': keys are block windows (len + 2r cells); the two halves of a 128-ring with r = 1
+        N, r = 128, 1
+        st = [rng.randrange(2) for _ in range(N)]
+        st[127] = st[63]            # the two windows overlap at their ends: make those agree
+        st[64] = st[0]
+        w1 = [(i % N) for i in range(-1, 65)]
+        w2 = [(i % N) for i in range(63, 129)]
+        a = [st[i] for i in w1]
+        b = weak.crc_partner(a, list(range(2, 64)), "int32")       # interiors only: the windows overlap at their ends
+        if b is not None:
+            for pos in range(2, 64):
+                st[w2[pos]] = b[pos]
+            # make the ends agree: window 2 = (s[63], s[64..127], s[0]) must start/end like `a` does
+            if [st[i] for i in w2][:2] == a[:2] and [st[i] for i in w2][-2:] == a[-2:]:
+                out.append(dict(kind="ev1", hist=[st], dtype="int32", scale=1, r=r, rule="nks:30", T=3, memo="recursive_lit"))
+    return out
+
+
 def gen(ctx):
+    yield from weak_cases(ctx.rng, 2 if ctx.tier == "quick" else 8)
+    yield from _gen(ctx)
+
+
+def _gen(ctx):
     rng = ctx.rng
     # corpus: D1 (run-time built 'recursive'), blocks wider than the ring, N=1
     yield dict(kind="ev1", hist=[[0, 1, 1, 0, 1]], dtype="int32", scale=1, r=1, rule="nks:30", T=4, memo="recursive_built")
